@@ -90,10 +90,10 @@ const (
 
 type zv struct {
 	kind      zvKind
-	flag      ssa.Value // zvCond
+	flag      ssa.Value   // zvCond
 	alt       []ssa.Value // zvCond: further flags each of which implies validity
-	call      *ssa.Call // result of a (Value, error) function: meaningful on the error-free edge only
-	slotKnown *ssa.Call // zvNo, but: valid whenever the definition the callee selects is of a known message
+	call      *ssa.Call   // result of a (Value, error) function: meaningful on the error-free edge only
+	slotKnown *ssa.Call   // zvNo, but: valid whenever the definition the callee selects is of a known message
 	why       string
 }
 
